@@ -162,6 +162,21 @@ def encode_op(op):
     if k == 'slice':
         _, s, d, a, b = op
         return [30, s, d, a, *_o(b)]
+    if k in ('tdag', 'trp'):
+        _, r, u, v, st, en = op
+        return [60 if k == 'tdag' else 61, r, u, *_o(v), *_o(st), *_o(en)]
+    if k == 'alltrp':
+        _, r, st, en, mt = op
+        return [62, r, *_o(st), *_o(en), *_o(mt)]
+    if k == 'annotate':
+        flat = []
+        for p in op[2]:
+            flat.append(len(p))
+            for h in p:
+                flat += list(h)
+        return [63] + flat
+    if k == 'compact':
+        return [64] + list(op[2])
     if k == 'todir':
         return [31, op[1], op[2]]
     if k == 'toundir':
@@ -233,7 +248,43 @@ def decode_res(op, ints, directed_of):
         return sorted(_npair(False, u, v) for u, v in _pairs(ints))
     if k == 'meta':
         return tuple(ints)
+    if k == 'tdag':
+        if ints[0] == -1:
+            return 'ValueError'
+        i = 1
+        def occs(i, per):
+            n = ints[i]; i += 1
+            out = []
+            for _ in range(n):
+                out.append(tuple(ints[i:i + per])); i += per
+            return out, i
+        edges, i = occs(i, 4)
+        sources, i = occs(i, 2)
+        targets, i = occs(i, 2)
+        return dict(edges=sorted(((a, b), (c, d)) for a, b, c, d in edges), sources=sorted(sources), targets=sorted(targets))
+    if k in ('trp', 'alltrp'):
+        if ints[0] == -1:
+            return 'ValueError'
+        return sorted(_dec_paths(ints, 0)[0])
+    if k == 'annotate':
+        out, i = [], 0
+        for _ in range(5):
+            ps, i = _dec_paths(ints, i)
+            out.append(sorted(ps))
+        return dict(zip(['shortest', 'fastest', 'foremost', 'fastest_shortest', 'shortest_fastest'], out))
+    if k == 'compact':
+        return sorted(_pairs(ints))
     raise ValueError(op)
+
+
+def _dec_paths(ints, i):
+    n = ints[i]; i += 1
+    out = []
+    for _ in range(n):
+        ln = ints[i]; i += 1
+        out.append(tuple(tuple(ints[i + 3 * j:i + 3 * j + 3]) for j in range(ln)))
+        i += 3 * ln
+    return out, i
 
 
 # ----------------------------------------------------------------------------------------------------------
@@ -360,6 +411,18 @@ class Impl:
             _, r, kind = op
             getattr(self.g(r), kind)()
             return None
+        if k == 'annotate':
+            from dynetx.algorithms import paths as al
+            ps = [[tuple(h) for h in p] for p in op[2]]
+            if op[1] == 'tuples':
+                ps = [tuple(p) for p in ps]
+            res = al.annotate_paths(ps)
+            for p in ps:
+                if al.path_length(p) != len(p) or al.path_duration(p) != p[-1][2] - p[0][2]:
+                    return 'BAD-METRIC'
+            return {kk: sorted(tuple(tuple(h) for h in p) for p in v) for kk, v in res.items()}
+        if k == 'compact':
+            return sorted(D.compact_timeslot(list(op[2])).items())
         if op[1] not in self.R:
             return 'NOREG'  # the register was never produced (its constructor raised): nothing to observe
         G = self.g(op[1])
@@ -480,6 +543,43 @@ class Impl:
                 return 'ZeroDivisionError'
         if k == 'meta':
             return (int(G.is_directed()), int(G.edge_removal), attr_back(G.graph), int(bool(D.is_frozen(G))))
+        if k == 'tdag':
+            from dynetx.algorithms import paths as al
+            _, r, u, v, st, en = op
+            try:
+                DG, sources, targets, _, _ = al.temporal_dag(G, I.to(u), None if v is None else I.to(v), start=st, end=en)
+            except Exception as x:
+                return _exc_name(x)
+            def dec(s):
+                a, b = str(s).rsplit('_', 1)
+                return (I.back(type(I.to(0))(a)) if not isinstance(I.to(0), str) else I.back(a), int(b))
+            try:
+                acyc = __import__('networkx').is_directed_acyclic_graph(DG)
+                es = sorted((dec(a), dec(b)) for a, b in DG.edges())
+                nodes_ok = all(x in DG for x in list(sources) + list(targets))
+                res = dict(edges=es, sources=sorted(dec(x) for x in sources), targets=sorted(dec(x) for x in targets))
+                self.last_dag_info = dict(acyclic=acyc, nodes_ok=nodes_ok)
+                res['_acyclic'] = acyc
+                res['_nodes_ok'] = nodes_ok
+                return res
+            except Exception as x:
+                return 'DECODE:' + _exc_name(x)
+        if k == 'trp':
+            from dynetx.algorithms import paths as al
+            _, r, u, v, st, en = op
+            try:
+                res = al.time_respecting_paths(G, I.to(u), None if v is None else I.to(v), start=st, end=en)
+            except Exception as x:
+                return _exc_name(x)
+            return _canon_paths(res, I)
+        if k == 'alltrp':
+            from dynetx.algorithms import paths as al
+            _, r, st, en, mt = op
+            try:
+                res = al.all_time_respecting_paths(G, start=st, end=en, min_t=mt)
+            except Exception as x:
+                return _exc_name(x)
+            return _canon_paths(res, I)
         if k == 'slice':
             _, s, dst, a, b = op
             try:
@@ -503,8 +603,34 @@ class Impl:
         raise ValueError(op)
 
 
+def _canon_paths(res, I):
+    """dict (first,last) -> list of tuple paths  ==> sorted list of paths; structural defects are reported"""
+    if isinstance(res, list):
+        return [] if res == [] else 'BAD-TYPE'
+    out = []
+    for k, ps in res.items():
+        seen = set()
+        for p in ps:
+            if not isinstance(p, tuple) or len(p) == 0:
+                return 'BAD-PATH:%r' % (p,)
+            if (p[0][0], p[-1][1]) != k:
+                return 'BAD-KEY:%r' % (k,)
+            if p in seen:
+                return 'DUPLICATE:%r' % (p,)
+            seen.add(p)
+            out.append(tuple((I.back(a), I.back(b), t) for a, b, t in p))
+    return sorted(out)
+
+
 def run_impl(prog, family='int', functional=False):
     return Impl(Ids(family), functional).run(prog)
+
+
+def public(x):
+    """implementation answers may carry oracle-only facts under keys starting with '_'"""
+    if isinstance(x, dict):
+        return {k: v for k, v in x.items() if not str(k).startswith('_')}
+    return x
 
 
 def diff_results(prog, ri, rm, obs=None):
@@ -515,7 +641,7 @@ def diff_results(prog, ri, rm, obs=None):
             continue
         if a == 'NOREG':
             continue
-        if a != b:
+        if public(a) != b:
             out.append((i, op, a, b))
     return out
 
